@@ -450,6 +450,88 @@ print('RESULT ' + json.dumps(dict(out=out, ran=o.ran)))
 """
 
 
+class LongKeysAndCopies(Suite):
+    """bindings whose key text is long (lists of hundreds of ids) and differ only near its end - in the last element, in a
+    parameter that sorts after the long one: different entries; and an object copied with copy.copy / __dict__.update after
+    its cached method (decorated with the bare @cached) was used: the copy, with a state and a cache of its own, executes
+    and stores for itself.  Runtime check only."""
+    name = 'long_keys_and_copied_objects'
+    model = ''
+
+    def gen(self, rng, tier):
+        return [dict(kind='long', n=n, cache=c) for n in (3, 150, 250, 400, 2000) for c in ('memory', 'json')] + \
+               [dict(kind='copy', how=h, form=f) for h in ('copy', 'dict_update', 'deepcopy') for f in ('bare', 'called')]
+
+    def run_impl(self, case):
+        import copy, shutil, tempfile
+        from pathlib import Path
+        from taskchain.cache import cached, InMemoryCache, JsonCache
+        d = tempfile.mkdtemp(prefix='tcverif-c16l-')
+        try:
+            if case['kind'] == 'long':
+                class Obj:
+                    def __init__(self):
+                        self.cache = InMemoryCache() if case['cache'] == 'memory' else JsonCache(Path(d) / 'c')
+                        self.ran = []
+
+                    @cached()
+                    def total(self, ids, mode='sum', *, scale=1):
+                        self.ran.append((len(ids), ids[-1], mode, scale))
+                        return [sum(ids) * scale, mode, ids[-1]]
+                o = Obj()
+                ids = list(range(1000, 1000 + case['n']))
+                other = ids[:-1] + [7]
+                calls = [(ids, {}), (other, {}), (ids, {'mode': 'max'}), (ids, {'scale': 3}), (ids, {}), (other, {}), (ids, {'scale': 3, 'mode': 'sum'})]
+                out = [o.total(a, **k) for a, k in calls]
+                want = [[sum(a) * k.get('scale', 1), k.get('mode', 'sum'), a[-1]] for a, k in calls]
+                return dict(out=out, want=want, ran=len(o.ran))
+
+            class Thing:
+                def __init__(self, factor):
+                    self.factor = factor
+                    self.cache = InMemoryCache()
+                    self.ran = []
+            def times(self, x):
+                self.ran.append(x)
+                return self.factor * x
+            Thing.times = cached(times) if case['form'] == 'bare' else cached()(times)
+            a = Thing(2)
+            first = a.times(5)
+            if case['how'] == 'copy':
+                b = copy.copy(a)
+            elif case['how'] == 'deepcopy':
+                b = copy.deepcopy(a)
+            else:
+                b = Thing.__new__(Thing)
+                b.__dict__.update(a.__dict__)
+            b.factor, b.cache, b.ran = 3, InMemoryCache(), []
+            second = b.times(5)
+            third = b.times(5, only_cache=True)
+            return dict(first=first, second=second, third=third, ran_a=list(a.ran), ran_b=list(b.ran))
+        finally:
+            shutil.rmtree(d, ignore_errors=True)
+
+    def oracle(self, case, obs):
+        if 'unexpected_exception' in obs:
+            return f'unexpected exception {obs["unexpected_exception"]}: {obs["text"]}'
+        if case['kind'] == 'long':
+            if obs['out'] != obs['want'] or obs['ran'] != 4:
+                bad = [i for i, (a, b) in enumerate(zip(obs['out'], obs['want'])) if a != b]
+                return (f'{case}: calls with a list of {case["n"]} ids: results of calls {bad} are those of other bindings '
+                        f'({[obs["out"][i] for i in bad][:2]} instead of {[obs["want"][i] for i in bad][:2]}); {obs["ran"]} executions, 4 bindings')
+            return None
+        if (obs['first'], obs['second'], obs['third']) != (10, 15, 15) or obs['ran_a'] != [5] or obs['ran_b'] != [5]:
+            return (f'{case}: the original (factor 2) gives {obs["first"]}, its copy (factor 3, own cache) gives {obs["second"]} and '
+                    f'{obs["third"]} from its cache; executions on the original {obs["ran_a"]}, on the copy {obs["ran_b"]}')
+        return None
+
+    def nontrivial(self, case, obs):
+        return True
+
+    def key(self, case):
+        return repr(case)
+
+
 class AcrossProcesses(Suite):
     """a cached method whose object keeps a file cache, used by several interpreter processes one after the other (each
     with its own string-hash seed): what one process computed or was given through store_cache_value is an entry for the
@@ -498,7 +580,7 @@ class AcrossProcesses(Suite):
 
 class C16(Prop):
     pid = 'C16'
-    suites = [History(), Methods(), AcrossProcesses()]
+    suites = [History(), Methods(), AcrossProcesses(), LongKeysAndCopies()]
     trusted_base = ['json.dumps(sort_keys=True) of the standard library is injective on JSON-distinguishable values '
                     'and insensitive to dict insertion order (the model key is the value the key text denotes)']
     assumptions = ['calls are valid Python calls of the undecorated method; argument values are JSON-like with '
